@@ -73,6 +73,43 @@ CLAIMED = {
             "swallowed; that emitters are written only on the connection's own objects (FAILS for _Processor: F17).",
             "emit_signal/gather, asyncify, _WrappedABC.__new__ (one wrapper per instance) by assumed contracts; timing "
             "of slow subscribers not decided."),
+    "C01": ("deductive verification per broker operation against an abstract per-element view (waiting/delayed/held/dead) "
+            "with quantified loop invariants; cancellation explored at every await (yield points)",
+            "Proof for the in-memory broker that ack removes, nack dead-letters, enqueue places the message in exactly "
+            "one container chosen by its due time, requeue replaces the held message, and that a cancelled single-effect "
+            "operation leaves the old or the new state; reject (F01a) and a cancelled requeue (F01b) are known findings.",
+            "Well-behaved clients (distinct ids, actions only on held messages) are preconditions; one queue object per "
+            "operation; interleaving with other tasks beyond cancellation is not explored; Redis/RabbitMQ brokers: see level note "
+            "in evidence (command-model contracts where built)."),
+    "C05": ("deductive verification of in-memory enqueue/__consume_normal, wait_until, Redis wait_timestamp/unix_time "
+            "(real arithmetic), plus a bounded stand-in for in-memory __update_delayed",
+            "Proof that a message with a due time is placed only in the delayed container, that NORMAL consumption reads "
+            "only the waiting queue, and that a Redis score can only be passed by a consumer clock at most 1 ms before the "
+            "due time (after fix F05). __update_delayed is decided by an exhaustive bounded check only (labelled bounded).",
+            "Floats as exact reals; latency/liveness clauses not decided; RabbitMQ TTL is server side."),
+    "C11": ("deductive verification of Router.actor / include_router (maps of sets, quantified index invariant) and of the "
+            "in-memory consumer's topic filter",
+            "Proof that a registration is stored under its name and served by its queue, that include_router yields the "
+            "union with the later registration winning, and that a foreign, unexpired head message is rotated to the back "
+            "unchanged and never delivered or dead-lettered. 'No stale topic' fails on re-registration (F11).",
+            "Other workers / processes are outside the model."),
+    "C12": ("deductive verification of the four is_overdue, the in-memory NORMAL/DEAD consumption and the Redis consumer's "
+            "delivery decision",
+            "Proof that an expired head is dead-lettered and not delivered, a live one is never dead-lettered, dead letters "
+            "are handed out oldest first, and (after fix F12) the Redis consumer nacks exactly the overdue NORMAL messages and "
+            "returns everything else it took.",
+            "Redis fetch path by placeholder contract until c01_redis; RabbitMQ dead-letter routing is server side."),
+    "C14": ("deductive verification of in-memory consume (yield invariant: a taken message is held before any await), "
+            "finish, ack",
+            "Proof that consume holds exactly the message it returns without disturbing other holders, with no await between "
+            "taking and holding, under cancellation at every await; finish() returning other consumers' messages is F14a.",
+            "'had no holder before' relies on the container-disjointness invariant, which is not proved; Redis take path and "
+            "RabbitMQ exclusivity: see evidence."),
+    "C15": ("deductive verification of in-memory enqueue (tail), __consume_normal (head, rotation) and __consume_delayed "
+            "(earliest due time, list order) with sequence reasoning in z3/cvc5",
+            "Proof that waiting messages enter at the tail and leave from the head, a rotated foreign head keeps the relative "
+            "order of the others, and delayed inspection returns the first message of the minimal due time.",
+            "Redis window scan (F15) and RabbitMQ ordering not yet under contract."),
 }
 NOT_APPLICABLE_REASON = "check not built yet (work in progress; see DESIGN.md section 5 for the planned contracts)"
 
